@@ -217,6 +217,14 @@ theorem no_signal_before_done (cfg : HCfg) (ticks : List TickIn) (env : HEnv)
   rw [htr] at hm
   exact accepted_fire_then_attempt hm hq
 
+/-- Signals happen nowhere else: outside the attempt blocks the only event of the kill model in any history is the
+`pause_actions` call that follows a successful kill - no `kill(2)`, no `cgroup.kill` write, no xattr write. -/
+theorem only_attempts_signal (cfg : HCfg) (ticks : List TickIn) (env : HEnv) (pre post : List HEv) (e : Ev)
+    (htr : trace cfg ticks env = pre ++ .k e :: post) : ∃ d, e = .pause d := by
+  obtain ⟨m, hm⟩ := sound cfg ticks env
+  rw [htr] at hm
+  exact accepted_k hm
+
 /-! ## C07_fallback_fires_again -/
 
 /-- **C07_fallback_fires_again** (every attempt is gated, the first one and every fallback after a failed kill alike).
@@ -279,11 +287,6 @@ theorem hooks_do_not_change_the_kill (cfg : HCfg) (rank : List View → List Vie
 theorem no_hooks_never_waits (cfg : HCfg) (rank : List View → List View) (dl : Option Nat) (hp : cfg.prio = [])
     (n : Nat) (stack : List View) (k : Nat) (env : HEnv) (p : Pending) : (hloop cfg rank dl n stack k env).val ≠ .defer p :=
   hloop_no_hooks_nodefer cfg rank dl hp n stack k env p
-
-/-! ## table tie -/
-
-/-- `PluginRet::ASYNC_PAUSED` as the engine reads it (regenerated from `BasePlugin.h` on every run) -/
-theorem async_value : Kill.Ret.async.toNat = 2 := by decide
 
 /-! ## non-vacuity: concrete histories -/
 
